@@ -32,6 +32,28 @@ fn seed_from_env() -> u64 {
     std::env::var("VERIF_SEED").ok().and_then(|s| s.trim().parse::<i128>().ok()).map(|v| v as u64).unwrap_or(0)
 }
 
+fn set_mem_limit() {
+    let gb: u64 = std::env::var("VERIF_MEM_GB").ok().and_then(|s| s.parse().ok()).unwrap_or(6);
+    unsafe {
+        let lim = libc::rlimit { rlim_cur: gb << 30, rlim_max: gb << 30 };
+        libc::setrlimit(libc::RLIMIT_AS, &lim);
+    }
+}
+
+/// Removes scratch directories of processes that no longer exist.
+fn sweep_stale_scratch() {
+    if let Ok(rd) = std::fs::read_dir("/dev/shm") {
+        for e in rd.flatten() {
+            let name = e.file_name().to_string_lossy().to_string();
+            if let Some(pid) = name.strip_prefix("axverif-").and_then(|p| p.parse::<u32>().ok()) {
+                if !Path::new(&format!("/proc/{pid}")).exists() {
+                    let _ = std::fs::remove_dir_all(e.path());
+                }
+            }
+        }
+    }
+}
+
 fn main() {
     let args: Vec<String> = std::env::args().collect();
     let code = match args.get(1).map(|s| s.as_str()) {
@@ -118,6 +140,7 @@ fn worker(a: &[String]) -> i32 {
     let nshards: u32 = a[4].parse().unwrap_or(1);
     let out = PathBuf::from(&a[5]);
     panics::install();
+    set_mem_limit();
     start_watchdog(Some(out.with_extension("hang")));
     let budget = Duration::from_secs(tier.pick(p.budget_s.0, p.budget_s.1));
     let mut ctx = ShardCtx::new(p.id, tier, seed, shard, nshards, budget);
@@ -149,6 +172,7 @@ fn replay(a: &[String]) -> i32 {
         return 2;
     };
     panics::install();
+    set_mem_limit();
     start_watchdog(None);
     call_begin(|| format!("replay {path}"));
     let out = (p.replay)(&r.kind, &r.case);
@@ -179,17 +203,33 @@ enum Isolated {
     Hung,
 }
 
-/// Runs `vcheck replay <file>` in a child process.
+/// Runs `vcheck replay <file>` in a child process, with a wall-clock cap.
 fn run_isolated(exe: &Path, file: &Path) -> Isolated {
-    let st = Command::new(exe).arg("replay").arg(file).env("RUST_BACKTRACE", "0").stdin(Stdio::null()).stdout(Stdio::null()).stderr(Stdio::null()).status();
-    match st {
-        Ok(s) => match s.code() {
-            Some(0) => Isolated::Passed,
-            Some(1) => Isolated::Failed,
-            Some(HANG_EXIT) => Isolated::Hung,
-            _ => Isolated::Died,
-        },
-        Err(_) => Isolated::Died,
+    let child = Command::new(exe).arg("replay").arg(file).env("RUST_BACKTRACE", "0").stdin(Stdio::null()).stdout(Stdio::null()).stderr(Stdio::null()).spawn();
+    let Ok(mut child) = child else { return Isolated::Died };
+    let deadline = Instant::now() + hang_limit() * 8;
+    loop {
+        match child.try_wait() {
+            Ok(Some(s)) => {
+                scratch::cleanup_pid(child.id());
+                return match s.code() {
+                    Some(0) => Isolated::Passed,
+                    Some(1) => Isolated::Failed,
+                    Some(HANG_EXIT) => Isolated::Hung,
+                    _ => Isolated::Died,
+                };
+            }
+            Ok(None) => {
+                if Instant::now() > deadline {
+                    let _ = child.kill();
+                    let _ = child.wait();
+                    scratch::cleanup_pid(child.id());
+                    return Isolated::Hung;
+                }
+                std::thread::sleep(Duration::from_millis(20));
+            }
+            Err(_) => return Isolated::Died,
+        }
     }
 }
 
@@ -209,6 +249,7 @@ fn supervisor(a: &[String]) -> i32 {
         .unwrap_or(Tier::Quick);
     let seed = seed_from_env();
     let t0 = Instant::now();
+    sweep_stale_scratch();
     let exe = std::env::current_exe().expect("current_exe");
     let nshards = NSHARDS.min(p.max_shards).max(1);
     let parallel: usize = std::env::var("VERIF_JOBS").ok().and_then(|s| s.parse().ok()).unwrap_or_else(|| {
@@ -358,9 +399,9 @@ fn supervisor(a: &[String]) -> i32 {
             infra.push(format!("shard {shard}: watchdog: {}", truncate(&desc, 600)));
         }
     }
-    for (shard, d, cur) in &deaths {
-        // attribute the death to the case that was running and confirm it in a fresh process
-        let confirmed = cur.as_ref().and_then(|c| {
+    for (di, (shard, d, cur)) in deaths.iter().enumerate() {
+        // attribute the death to the case that was running and confirm it in a fresh process (first few only)
+        let confirmed = cur.as_ref().filter(|_| di < 3).and_then(|c| {
             let r = Replay {
                 property: p.id.into(),
                 kind: c.get("kind").and_then(|k| k.as_str()).unwrap_or("?").to_string(),
